@@ -11,6 +11,7 @@ from .. import flowcheck
 from .. import floworacle as fo
 from .. import floworacle_r3 as f3
 from .. import floworacle_r4 as f4
+from .. import floworacle_r5 as f5
 
 LEAN_MODULES = ['Props.C01', 'Props.Agreement']
 TRUSTED = ['harness/flow_impl.py (yaml renderer, canonicaliser, virtual clock, scripted random.uniform)',
@@ -28,7 +29,8 @@ def run(env, res):
                 'None/0/\'\'/False/[]/{}, 12% with a malformed group body or sequence item, 35% written in another '
                 'yaml layout: flow style, JSON, first step on line 1, other indentation, single-quoted / plain / block scalars, anchors + aliases, merge keys; every 4th case runs with the root logger at DEBUG, every 8th at INFO, every 8th at NOTIFY - the log level is an input); a case is '
                 'non-trivial when the model accepts it and it terminates; distinct by canonical program text')
-    directed = [('c01-handler-hands-over', f4.c01_handover_family, env.n(150, 100000)),
+    directed = [('c04-value-forms', f5.c04_value_forms_rss, env.n(260, 100000)),
+                ('c01-handler-hands-over', f4.c01_handover_family, env.n(150, 100000)),
                 ('c01-straight', fo.c01_family, env.n(400, 100000)), ('c01-random-straight', fo.c01_random_straight, env.n(300, 6000)),
                 ('c01-malformed-failure-group', fo.c01_malformed_failure_family, env.n(120, 100000)),
                 ('c01-malformed-group', fo.c01_malformed_group_family, env.n(60, 100000)),
